@@ -13,7 +13,7 @@ use std::f64::consts::{FRAC_PI_2, PI};
 
 #[derive(Serialize, Deserialize, Clone, Debug)]
 pub struct Case {
-    /// rc3 | rm | rc2 | jac3 | jac2 | handler
+    /// rc3 | rm | rc2 | jac3 | jac2 | handler | probjac
     pub kind: String,
     pub i: usize,
     pub j: usize,
@@ -382,6 +382,76 @@ fn judge_handler(case: &Case, l: &mut Local) {
     l.check("handler: Jacobian values land in the body's own columns, none for the static body", "", ok, mk, || format!("{:?}", m));
 }
 
+
+/// The Jacobian assembled by the private alignment problems (observed through hook H4) must be the
+/// derivative of the residuals they report, at any pose including large rotations.
+fn judge_probjac(case: &Case, l: &mut Local) {
+    use crate::props::c07;
+    use engeom::common::DistMode;
+    use engeom::geom2::align2::verif_observe_points_to_curve;
+    use engeom::geom3::align3::verif_observe_points_to_mesh;
+    let mk = || serde_json::to_value(case).unwrap();
+    let h = 1e-6;
+    let dx = [[0.0; 6], [0.01, -0.02, 0.005, 0.002, -0.003, 0.001], [-0.03, 0.01, 0.02, -0.01, 0.02, 0.015]][case.rc % 3];
+    // (n rows, parameter count, closure evaluating (params, residuals, jacobian) after the history)
+    let (np, obs): (usize, Box<dyn Fn(&[Vec<f64>]) -> (Vec<f64>, Vec<f64>, Vec<f64>)>) = if case.k == 2 {
+        let curve = c07::curve_ref(case.i);
+        let initial = [Iso2::identity(), Iso2::new(Vector2::new(1.0, -2.0), 2.0), Iso2::new(Vector2::new(-3.0, 0.5), -2.8), Iso2::new(Vector2::new(0.2, 0.1), FRAC_PI_2)][case.t % 4];
+        let on = c07::curve_samples(&curve, 14);
+        let pts: Vec<Point2> = on.iter().enumerate().map(|(i, p)| initial.inverse() * (p + Vector2::new([0.04, -0.03, 0.02][i % 3], [0.03, 0.05, -0.04, 0.02][i % 4]))).collect();
+        (3, Box::new(move |hist: &[Vec<f64>]| {
+            let hs: Vec<[f64; 3]> = hist.iter().map(|x| [x[0], x[1], x[2]]).collect();
+            let o = verif_observe_points_to_curve(&pts, &curve, &initial, &hs);
+            (o.0, o.1, o.2)
+        }))
+    } else {
+        let mesh = c07::mesh_ref(case.i);
+        let initial = [Iso3::identity(), Iso3::new(Vector3::new(1.0, -2.0, 3.0), Vector3::z() * 2.5), Iso3::new(Vector3::new(-3.0, 0.5, 1.0), Vector3::new(1.0, 1.0, 1.0).normalize() * -2.2), Iso3::new(Vector3::new(0.2, 0.1, -0.4), Vector3::x() * 1.3)][case.t % 4];
+        let on = c07::mesh_samples(&mesh);
+        let pts: Vec<Point3> = on.iter().take(24).enumerate().map(|(i, p)| initial.inverse() * (p + Vector3::new([0.04, -0.03, 0.02][i % 3], [0.03, 0.05, -0.04, 0.02][i % 4], [0.05, -0.06][i % 2]))).collect();
+        let mode_i = case.j;
+        (6, Box::new(move |hist: &[Vec<f64>]| {
+            let hs: Vec<[f64; 6]> = hist.iter().map(|x| [x[0], x[1], x[2], x[3], x[4], x[5]]).collect();
+            let o = verif_observe_points_to_mesh(&pts, &mesh, &initial, if mode_i == 0 { DistMode::ToPlane } else { DistMode::ToPoint }, &hs);
+            (o.0, o.1, o.2)
+        }))
+    };
+    l.eval();
+    let base = match guarded(|| obs(&[])) {
+        Ok(b) => b,
+        Err(e) => {
+            l.check("problem observers return", "panic", false, mk, || e.clone());
+            return;
+        }
+    };
+    let x: Vec<f64> = (0..np).map(|i| base.0[i] + dx[i]).collect();
+    let at = obs(&[x.clone()]);
+    let n = at.1.len();
+    l.bucket(if case.t % 4 == 0 { "assembled Jacobian at the identity pose" } else { "assembled Jacobian at a large rotation" });
+    let mut worst = 0.0f64;
+    let mut judged = 0;
+    for i in 0..np {
+        let mut xp = x.clone();
+        let mut xm = x.clone();
+        xp[i] += h;
+        xm[i] -= h;
+        let (rp, rm) = (obs(&[xp]).1, obs(&[xm]).1);
+        for row in 0..n {
+            // skip residual kinks (the closest element changes, or an absolute value crosses zero)
+            if (rp[row] - 2.0 * at.1[row] + rm[row]).abs() > 1e-9 || at.1[row].abs() < 1e-3 {
+                l.gray("residual kink in the assembled Jacobian check");
+                continue;
+            }
+            let fd = (rp[row] - rm[row]) / (2.0 * h);
+            let an = at.2[i * n + row];
+            worst = worst.max((fd - an).abs());
+            judged += 1;
+        }
+    }
+    l.outcome(hash_of(&(case.k, case.t % 4, worst <= 1e-4)));
+    l.check("the Jacobian assembled by the alignment problem is the derivative of its residuals", if case.k == 2 { "2D" } else if case.j == 0 { "3D plane" } else { "3D point" }, judged > 0 && worst <= 1e-4, mk, || format!("{} entries judged, worst |analytic - finite difference| = {:e}", judged, worst));
+}
+
 pub fn judge(case: &Case, l: &mut Local) {
     l.distinct(hash_of(&serde_json::to_string(case).unwrap()));
     if case.i == 3 && case.j == 9 && case.k == 1 {
@@ -394,6 +464,7 @@ pub fn judge(case: &Case, l: &mut Local) {
         "jac3" => judge_jac3(case, l),
         "jac2" => judge_jac2(case, l),
         "handler" => judge_handler(case, l),
+        "probjac" => judge_probjac(case, l),
         _ => {}
     }
 }
@@ -437,6 +508,18 @@ pub fn cases(tier: Tier) -> Vec<Case> {
             }
         }
     }
+    for shape in 0..3 {
+        for t in 0..4 {
+            for rc in 0..3 {
+                out.push(c("probjac", shape, 0, 2, t, rc));
+                if shape < 2 {
+                    for mode in 0..2 {
+                        out.push(c("probjac", shape, mode, 3, t, rc));
+                    }
+                }
+            }
+        }
+    }
     for i in 0..3 {
         for j in 0..4 {
             for k in 0..2 {
@@ -451,7 +534,7 @@ pub fn run(tier: Tier) -> i32 {
     let mut cx = Ctx::new("C08", tier, "exploration");
     cx.rule = "Euler alphabet {0, +-0.3, +-1.1, +-2.5, pi, +-pi/2, +-(pi/2 - 1e-9 / 1e-5 / 1e-4 / 1e-3)}: every triple for the rotation matrices, their derivatives and the Euler extraction; every triple x 3 translations (up to 1e3) x 3 rotation centres (up to 1e3 from the origin) for the parameter object , each followed by 3 parameter updates compared with the independent formula p -> rc_d + t + R(e)(p - rc); 2D: 12 angles x translations x centres; Jacobians: 5 poses x translations x centres x lattice test points x lattice surface points x 4 normals, every parameter index against central finite differences; ParamHandler: 2..4 bodies x every static index x with/without initial transforms. distinct = distinct cases".into();
     cx.bounds = json!({"euler_alphabet": euler_alphabet().len(), "translations": 3, "centres": 3, "fd_step": 1e-6});
-    cx.require(&["pitch at or near gimbal lock", "pitch away from gimbal lock", "rotation centre far from the origin", "rotation centre near the origin", "2D parameter object", "offset parallel to the normal", "offset not parallel to the normal", "2D Jacobian probe", "parameter handler layout"]);
+    cx.require(&["pitch at or near gimbal lock", "pitch away from gimbal lock", "rotation centre far from the origin", "rotation centre near the origin", "2D parameter object", "offset parallel to the normal", "offset not parallel to the normal", "2D Jacobian probe", "parameter handler layout", "assembled Jacobian at the identity pose", "assembled Jacobian at a large rotation"]);
     cx.assume("reproduction tolerance 1e-9*(1+|t|+|rc|); isometry<->parameter round trip judged at 1e-9*(1+|t|); Jacobian tolerance 1e-5*lever with central differences h=1e-6, residual kinks (|d| < 1e-3) skipped");
     let cs = cases(tier);
     let l = sweep(&cs, judge);
